@@ -2717,15 +2717,17 @@ func (dsc *dataStoreCommand) setOperationCount(
 
 func (dsc *dataStoreCommand) diffWorker(firstKey string, keyNames ...string) (d *redisDict, wrongType bool) {
 	sk, objExists := dsc.getKeyObjectUnlocked(firstKey)
-	if !objExists {
-		d = newRedisDict()
-		return
-	}
 
-	m := sk.getSet()
-	if m == nil {
-		wrongType = true
-		return
+	var m *redisDict
+	if !objExists {
+		// a missing first key is the empty set; the other keys are still type checked
+		m = newRedisDict()
+	} else {
+		m = sk.getSet()
+		if m == nil {
+			wrongType = true
+			return
+		}
 	}
 
 	d = m.clone()
